@@ -64,7 +64,7 @@ def n5(ctx, prog, bodies):
     from .. import bla
     from ..bla import Lin
     sites = [(b, blk, c, t) for b in bodies for (blk, c, t) in b.calls() if c.target.startswith("blake3::derive_key") or c.path == "blake3::derive_key"]
-    ctx.floor("N5", "blake3::derive_key call sites", 3, len(sites))
+    ctx.floor("N5", "blake3::derive_key call sites", 2, len(sites))
     for (b, blk, c, t) in sites:
         where = loc(t["sp"])
         mp = op_place(t["args"][1]) if len(t["args"]) > 1 else None
